@@ -105,6 +105,13 @@ Theorem C09_stog_builds : forall nl dw dh r, stog_netlist nl -> exists eqs, buil
 Proof. exact stog_netlist_builds. Qed.
 Print Assumptions C09_stog_builds.
 
+Theorem C09_legal_iff_stog : forall nl dw dh r eps v, stog_netlist nl ->
+  exists eqs, build nl dw dh r = Some eqs /\
+  (Forall (met eps v) eqs <->
+   Legal v (eps + met_tol) (Qc2R (tau_of dw dh (List.length nl))) (Qc2R dw) (Qc2R dh) (Qc2R r) nl).
+Proof. exact legal_iff_stog. Qed.
+Print Assumptions C09_legal_iff_stog.
+
 Theorem C09_stog_roles : forall M t rest, m_rects M = (LTrunk, t) :: rest ->
   Forall (fun p => is_side (fst p) = true) rest ->
   umod_of M = mkUmod t (pick LNorth rest) (pick LSouth rest) (pick LEast rest) (pick LWest rest).
